@@ -47,7 +47,9 @@ def ili_file(r, pool):
                 vals.append(row['status'])
             elif lc == 'definition':
                 row['definition'] = r.choice(['', 'a definition', 'définition ü 猫', 'with "quotes" & <tags>', 'x' * 50, '"quoted" at the start',
-                                              '"unbalanced quote at the start', "'single' quotes, commas, and; semicolons"])
+                                              '"unbalanced quote at the start', "'single' quotes, commas, and; semicolons",
+                                              # characters that str.splitlines() treats as line ends although a file does not
+                                              'line\u2028separator', 'next\x85line and form\x0cfeed', 'unit\x1fsep group\x1dsep', 'para\u2029graph'])
                 vals.append(row['definition'])
         if r.random() < 0.1 and len(vals) > 1:
             # short line: trailing columns missing
